@@ -1,0 +1,94 @@
+//go:build verif
+// +build verif
+
+package rafthttp
+
+import (
+	"bytes"
+	"context"
+	"sync"
+	"time"
+
+	"github.com/youzan/ZanRedisDB/pkg/types"
+	"github.com/youzan/ZanRedisDB/raft"
+	"github.com/youzan/ZanRedisDB/raft/raftpb"
+	"github.com/youzan/ZanRedisDB/stats"
+)
+
+// VerifStreamBufSize is the capacity of a stream writer's message queue.
+const VerifStreamBufSize = streamBufSize
+
+type verifRaft struct{}
+
+func (verifRaft) Process(ctx context.Context, m raftpb.Message) error                      { return nil }
+func (verifRaft) IsPeerRemoved(id uint64) bool                                             { return false }
+func (verifRaft) ReportUnreachable(id uint64, group raftpb.Group)                          {}
+func (verifRaft) ReportSnapshot(id uint64, group raftpb.Group, status raft.SnapshotStatus) {}
+
+type verifConn struct {
+	mu  sync.Mutex
+	buf bytes.Buffer
+}
+
+func (c *verifConn) Write(p []byte) (int, error) {
+	c.mu.Lock()
+	defer c.mu.Unlock()
+	return c.buf.Write(p)
+}
+func (c *verifConn) Flush()       {}
+func (c *verifConn) Close() error { return nil }
+
+// VerifStreamWriterRun drives a real streamWriter (startStreamWriter / run / attach / stop):
+// the messages of pre are put into its queue before a connection is attached (the backlog a
+// reconnect finds), then every batch of post is queued once the queue has drained. It returns
+// how many messages of pre and of each post batch the queue accepted (a full queue refuses,
+// as peer.send sees it), and the bytes the writer put on the connection. ok is false if the
+// queue did not drain within the time limit (nothing can be concluded then).
+func VerifStreamWriterRun(v2 bool, remote uint64, pre []raftpb.Message, post [][]raftpb.Message, limit time.Duration) (acceptedPre int, acceptedPost []int, stream []byte, ok bool) {
+	sw := startStreamWriter(types.ID(remote), newPeerStatus(types.ID(remote)), &stats.PeerStats{}, verifRaft{})
+	msgc, _ := sw.writec()
+	put := func(ms []raftpb.Message) int {
+		for i := range ms {
+			select {
+			case msgc <- ms[i]:
+			default:
+				return i
+			}
+		}
+		return len(ms)
+	}
+	drained := func() bool {
+		deadline := time.Now().Add(limit)
+		for len(msgc) > 0 {
+			if time.Now().After(deadline) {
+				return false
+			}
+			time.Sleep(200 * time.Microsecond)
+		}
+		return true
+	}
+	acceptedPre = put(pre)
+	st := streamTypeMessage
+	if v2 {
+		st = streamTypeMsgAppV2
+	}
+	conn := &verifConn{}
+	if !sw.attach(&outgoingConn{t: st, Writer: conn, Flusher: conn, Closer: conn}) {
+		sw.stop()
+		return acceptedPre, nil, nil, false
+	}
+	ok = drained()
+	for _, b := range post {
+		if !ok {
+			break
+		}
+		acceptedPost = append(acceptedPost, put(b))
+		ok = drained()
+	}
+	// the writer finishes the message it holds (encode, flush) before it looks at the stop signal
+	sw.stop()
+	conn.mu.Lock()
+	stream = append([]byte(nil), conn.buf.Bytes()...)
+	conn.mu.Unlock()
+	return acceptedPre, acceptedPost, stream, ok
+}
